@@ -21,6 +21,10 @@ type Term struct {
 	Ref  string `json:"ref,omitempty"`  // LicenseRef name (ref)
 	Base string `json:"base,omitempty"` // listed id the spelling was built from
 	Form string `json:"form,omitempty"` // "", "+", "-only", "-or-later", "-or-later+"
+	// the term's own token texts
+	Spelling string `json:"spelling,omitempty"` // id text without '+'
+	PlusTok  bool   `json:"plus_tok,omitempty"` // a '+' abuts the spelling
+	ExcText  string `json:"exc_text,omitempty"` // exception as spelled
 }
 
 // Normalize states the documented meaning of a license spelling (comment block above the
@@ -137,7 +141,7 @@ func (t *Tables) MakeLicTerm(base, form string, caseV uint32, exc string, excCas
 	if plus {
 		text += "+"
 	}
-	term := Term{Kind: "lic", ID: id, Plus: hasPlus, Base: base, Form: form}
+	term := Term{Kind: "lic", ID: id, Plus: hasPlus, Base: base, Form: form, Spelling: spelling, PlusTok: plus}
 	if exc != "" {
 		if sp1 == "" {
 			sp1 = " "
@@ -145,7 +149,8 @@ func (t *Tables) MakeLicTerm(base, form string, caseV uint32, exc string, excCas
 		if sp2 == "" {
 			sp2 = " "
 		}
-		text += sp1 + "WITH" + sp2 + recase(exc, excCaseV)
+		term.ExcText = recase(exc, excCaseV)
+		text += sp1 + "WITH" + sp2 + term.ExcText
 		term.Exc = exc
 	}
 	term.Text = text
@@ -328,7 +333,8 @@ func (t *Tables) withExc(term Term, exc string, cv uint32) Term {
 	if term.Kind != "lic" || term.Exc != "" {
 		return term
 	}
-	term.Text += " WITH " + recase(exc, cv)
+	term.ExcText = recase(exc, cv)
+	term.Text += " WITH " + term.ExcText
 	term.Exc = exc
 	return term
 }
